@@ -8,6 +8,8 @@ sites earlier rounds used (code locations only) and the delivery layout; nothing
 import json, os, sys
 
 STEER = {
+    "data": "Make the defect DATA-DEPENDENT: it should sit on a path every request takes and show only for particular values or shapes of input that are legal but unusual: a boundary value, an integer conversion or truncation, a size or count limit, duplicates or equal elements in a collection, ordering / sorting / de-duplication, an empty or maximal collection, a particular combination of optional fields. Stay away from the functions the property record names as anchors where you can; helper functions shared by several callers, conversions between crates and (de)serialisation code are good places.",
+    "wire": "Put the defect in the PLUMBING around the core logic rather than in the core logic: the wire-protocol handlers and conversions (vls-protocol-signer/src/handler.rs arms and helpers, vls-protocol-signer/src/util.rs, vls-protocol model types), signer construction and restore (HandlerBuilder, Node::new_from_persistence / restore_node and what they call), persistence conversions (vls-persist/src/model.rs, kvv.rs, ser_util), configuration (policy construction, filters, defaults), caches. The core function the property names should stay untouched and still be correct when called directly with the right arguments.",
     "default": "Prefer a site AWAY from the functions the property record names as anchors: plumbing between crates (wire handlers, persistence conversions, restore paths, configuration, caches, helper functions shared by several callers), data-dependent behaviour (a boundary value, an unusual but legal shape of input, a size, an ordering), or two cooperating edits that each look harmless.",
 }
 
